@@ -39,6 +39,9 @@ def randprofile(rng, minc=2, maxc=7, maxlines=12, maxm=4, wd=False, und=False, f
                     eqlines.append((rng.randint(1, maxm), groups))
                     continue
             lines.append((rng.randint(1, maxm), r))
+        if eq and len(withdrawn) >= 2 and rng.random() < 0.5:
+            # papers for withdrawn candidates only, ranked equal: they are not ballots at all
+            eqlines.append((rng.randint(1, maxm), [list(rng.sample(withdrawn, 2))] + ([[w for w in withdrawn][-1:]] if len(withdrawn) > 2 else [])))
         nb = sum(m for m, r in lines if any(c not in withdrawn for c in r))
         nb += sum(m for m, r in eqlines if any(c not in withdrawn for g in r for c in g))
         if nb >= len(elig) and lines:
@@ -157,6 +160,32 @@ def coalitionprofile(rng, maxc=6):
     rng.shuffle(tie)
     if sum(m for m, r in lines) < nc:
         lines.append((nc, list(base)))
+    return dict(nc=nc, seats=seats, lines=lines, tie=tie, withdrawn=[], undeclared=[], eqlines=[])
+
+
+def hiddenpartnerprofile(rng):
+    """a solid coalition {B, Z} worth two quotas all of whose papers put B first: the partner Z has no first
+    preferences and lives on B's surplus, while another candidate A also has a surplus (often the bigger one)"""
+    seats = 4
+    nc = rng.randint(5, 6)
+    ids = list(range(1, nc + 1))
+    rng.shuffle(ids)
+    B, Z, A = ids[0], ids[1], ids[2]
+    small = ids[3:]
+    q = rng.randint(8, 20)
+    n = q * (seats + 1)
+    coal = 2 * q + rng.randint(1, 2)
+    room = n - coal - len(small)
+    a = rng.randint(q, room) if rng.random() < 0.3 else min(room, coal + rng.randint(1, 4))
+    lines = [(coal, [B, Z]), (a, [A])]
+    left = n - coal - a
+    for i, c in enumerate(small):
+        m = left if i == len(small) - 1 else rng.randint(1, max(1, left - (len(small) - 1 - i)))
+        lines.append((max(m, 0) or 1, [c]))
+        left -= m
+    rng.shuffle(lines)
+    tie = list(range(1, nc + 1))
+    rng.shuffle(tie)
     return dict(nc=nc, seats=seats, lines=lines, tie=tie, withdrawn=[], undeclared=[], eqlines=[])
 
 
@@ -411,7 +440,7 @@ def neartieprofile(rng):
     return dict(nc=5, seats=4, lines=lines, tie=tie, withdrawn=[], undeclared=[], eqlines=[])
 
 
-SHAPES = dict(unanimous=unanimousprofile, neartie=neartieprofile, surplustie=surplustieprofile, bigm=bigmprofile, sparse=sparseprofile, reversal=reversalprofile, writein=writeinprofile, prior=priorprofile, bullet=bulletprofile, exact=exactprofile, sliver=sliverprofile, random=randprofile, tie=tieprofile, quota=quotaprofile, chain=chainprofile, coalition=coalitionprofile)
+SHAPES = dict(hiddenpartner=hiddenpartnerprofile, unanimous=unanimousprofile, neartie=neartieprofile, surplustie=surplustieprofile, bigm=bigmprofile, sparse=sparseprofile, reversal=reversalprofile, writein=writeinprofile, prior=priorprofile, bullet=bulletprofile, exact=exactprofile, sliver=sliverprofile, random=randprofile, tie=tieprofile, quota=quotaprofile, chain=chainprofile, coalition=coalitionprofile)
 
 # configurations whose numbers fit TLC's 32-bit integers for small electorates
 WIGM_ARITH = [
@@ -428,6 +457,7 @@ WIGM_ARITH = [
     {'arithmetic': 'guarded', 'precision': 3, 'guard': 0, 'display': 1},
     {'arithmetic': 'guarded', 'precision': 3, 'guard': 2, 'integer_quota': True},
     {'arithmetic': 'rational', 'integer_quota': True},
+    {'arithmetic': 'guarded', 'precision': 3, 'guard': 2, 'display': 0},
 ]
 MEEK_ARITH = [
     {'arithmetic': 'fixed', 'precision': 3},
@@ -437,6 +467,7 @@ MEEK_ARITH = [
     {'arithmetic': 'guarded', 'precision': 3, 'guard': 0},
     {'arithmetic': 'guarded', 'precision': 2, 'guard': 2, 'omega': 1},
     {'arithmetic': 'fixed', 'precision': 4, 'display': 1, 'omega': 2},
+    {'arithmetic': 'guarded', 'precision': 3, 'guard': 2, 'display': 0, 'omega': 2},
 ]
 WARREN_ARITH = [
     {'arithmetic': 'fixed', 'precision': 3},
@@ -448,6 +479,27 @@ LOWPREC = {'meek-prf': [(4, None, 2), (5, None, 3), (3, None, 2)], 'qpq': [(3, 2
 LOWPREC_OPT = {'wigm-prf': [None, None, (2, None, None), (1, None, None)], 'wigm-prf-batch': [None, None, (2, None, None), (1, None, None)],
                'cfer': [None, None, (2, None, None), (1, None, None)], 'cfer-batch': [None, None, (2, None, None), (1, None, None)],
                'scotland': [None, None, (2, None, None)], 'mpls': [None, None, (2, None, None)]}
+
+
+def thirdsprofile(rng):
+    """a surplus worth exactly 1/3 per paper carries a candidate to one unit short of a whole-number quota:
+    A has 3m papers `A C', the quota is 2m, C has m first preferences: m + 3m * 0.333.. = 2m - tiny"""
+    m = rng.randint(2, 5)
+    q = 2 * m
+    n = 3 * q - 3 + rng.randint(0, 2)            # floor(n / 3) + 1 = q for two seats
+    nc = rng.randint(3, 5)
+    ids = list(range(1, nc + 1))
+    rng.shuffle(ids)
+    A, C, D = ids[0], ids[1], ids[2]
+    rest = n - 4 * m
+    lines = [(3 * m, [A, C]), (m, [C]), (rest, [D] + ([ids[3]] if nc > 3 and rng.random() < 0.5 else []))]
+    if nc > 3 and rng.random() < 0.5 and rest > 2:
+        lines[2] = (rest - 1, lines[2][1])
+        lines.append((1, [ids[3], D]))
+    rng.shuffle(lines)
+    tie = list(range(1, nc + 1))
+    rng.shuffle(tie)
+    return dict(nc=nc, seats=2, lines=lines, tie=tie, withdrawn=[], undeclared=[], eqlines=[])
 
 
 def configs(rule, rng=None, all_=False, k=1):
@@ -466,4 +518,18 @@ def configs(rule, rng=None, all_=False, k=1):
         L = [(dict(rule=rule), None)]
     if all_ or rng is None:
         return L
-    return rng.sample(L, min(k, len(L)))
+    # stratified: successive calls walk through the rule's configurations cyclically (start chosen by the seed),
+    # so that one run covers all of them instead of a random handful
+    k = min(k, len(L))
+    pos = _CYCLE.get(rule)
+    if pos is None:
+        pos = rng.randrange(len(L))
+    out = [L[(pos + j) % len(L)] for j in range(k)]
+    _CYCLE[rule] = (pos + k) % len(L)
+    return out
+
+
+_CYCLE = {}
+
+
+SHAPES.update(thirds=thirdsprofile)
